@@ -43,6 +43,35 @@ def load_corpus(fam):
     return out
 
 
+def _process_case(args):
+    """Runs the implementation side of one case (in a worker process): model line, observation, oracles, bookkeeping."""
+    fam_name, c = args
+    import registry
+    fam = registry.FAMILIES[fam_name]
+    out = dict(trace=None)
+    try:
+        out['ml'] = fam.model_line(c)
+    except Exception as e:
+        out['ml'] = None
+        out['trace'] = traceback.format_exc()[-800:]
+    try:
+        out['obs'] = fam.impl_obs(c)
+    except Exception as e:  # harness bug or an exception class the observation does not expect
+        out['obs'] = '(harness-exception %s)' % type(e).__name__
+        out['trace'] = traceback.format_exc()[-800:]
+    try:
+        out['oracle'] = list(fam.oracle(c, out['obs']))
+    except Exception as e:
+        out['oracle'] = [('*', 'oracle-exception', traceback.format_exc()[-600:])]
+    try:
+        out['key'] = canon_hash(fam.key(c))
+        out['bucket'] = fam.bucket(c)
+        out['nontrivial'] = bool(fam.nontrivial(c))
+    except Exception:
+        out['key'], out['bucket'], out['nontrivial'] = canon_hash(repr(c)[:2000]), 'case', False
+    return out
+
+
 def run_family(fam, prop_id, tier, known, stats):
     """Runs one family; returns (disagreements, oracle_failures, known_hits)."""
     rng = lib.rng_for(fam.name)
@@ -54,12 +83,21 @@ def run_family(fam, prop_id, tier, known, stats):
     n_corpus = len(cases)
     cases.extend(fam.cases(tier, rng, prop_id))
     t0 = time.time()
+    # implementation side, sharded over the cores (each worker is a fork: fresh implementation objects per case)
+    args = [(fam.name, c) for c in cases]
+    if len(cases) >= 400 and os.environ.get('VERIF_SERIAL') != '1':
+        import multiprocessing
+        with multiprocessing.get_context('fork').Pool(lib.NPROC) as pool:
+            done = pool.map(_process_case, args, chunksize=max(1, len(args) // (lib.NPROC * 8)))
+    else:
+        done = [_process_case(a) for a in args]
+    t_impl = time.time() - t0
+    t0 = time.time()
     model_lines = []
     idx = []
-    for i, c in enumerate(cases):
-        ml = fam.model_line(c)
-        if ml is not None:
-            model_lines.append(ml)
+    for i, r in enumerate(done):
+        if r['ml'] is not None:
+            model_lines.append(r['ml'])
             idx.append(i)
     model_out = {}
     if model_lines and os.path.exists(lib.MODEL_RUN):
@@ -67,7 +105,6 @@ def run_family(fam, prop_id, tier, known, stats):
         for i, o in zip(idx, outs):
             model_out[i] = o
     t_model = time.time() - t0
-    t0 = time.time()
     disagreements = []
     failures = []
     known_hits = []
@@ -76,12 +113,8 @@ def run_family(fam, prop_id, tier, known, stats):
     nontrivial = 0
     discarded = 0
     samples = []
-    for i, c in enumerate(cases):
-        try:
-            obs = fam.impl_obs(c)
-        except Exception as e:  # harness bug or an exception class the observation does not expect
-            obs = '(harness-exception %s)' % type(e).__name__
-            c['_trace'] = traceback.format_exc()[-800:]
+    for i, (c, r) in enumerate(zip(cases, done)):
+        obs = r['obs']
         if i in model_out:
             raw = model_out[i]
             mo = fam.normalize_model(raw)
@@ -89,9 +122,9 @@ def run_family(fam, prop_id, tier, known, stats):
                 discarded += 1
             elif mo != obs:
                 disagreements.append(dict(family=fam.name, case=fam.describe(c), model=mo[:60000], impl=obs[:60000],
-                                          trace=c.get('_trace')))
-        for (pid, sig, what) in fam.oracle(c, obs):
-            if pid != prop_id and prop_id != 'ALL':
+                                          trace=r.get('trace')))
+        for (pid, sig, what) in r['oracle']:
+            if pid != prop_id and prop_id != 'ALL' and pid != '*':
                 continue
             entry = dict(family=fam.name, case=fam.describe(c), signature=sig, what=what, impl=obs[:4000])
             hit = None
@@ -102,12 +135,11 @@ def run_family(fam, prop_id, tier, known, stats):
                 known_hits.append((hit, entry))
             else:
                 failures.append(entry)
-        key = canon_hash(fam.key(c))
-        b = fam.bucket(c)
+        b = r['bucket']
         dist[b] = dist.get(b, 0) + 1
-        if key not in seen:
-            seen.add(key)
-            if fam.nontrivial(c):
+        if r['key'] not in seen:
+            seen.add(r['key'])
+            if r['nontrivial']:
                 nontrivial += 1
                 if len(samples) < 3:
                     samples.append(fam.describe(c))
@@ -115,7 +147,7 @@ def run_family(fam, prop_id, tier, known, stats):
     st.update(dict(evaluations=len(cases), corpus_cases=n_corpus, distinct=len(seen), distinct_nontrivial=nontrivial,
                    model_runs=len(model_out), discarded_unmodelled=discarded, distribution=dist,
                    rule=fam.rule, samples=samples, disagreements=len(disagreements),
-                   oracle_failures=len(failures), model_s=round(t_model, 2), impl_s=round(time.time() - t0, 2)))
+                   oracle_failures=len(failures), model_s=round(t_model, 2), impl_s=round(t_impl, 2)))
     return disagreements, failures, known_hits
 
 
